@@ -141,6 +141,24 @@ var c05cells = []c05cell{
 		r := x.req.Request(hlref.TranChatSend, sfld(hlref.FData, "hi all"))
 		return r, []bool{hasType(x.admin.TakeInbox(), hlref.TranChatMsg)}
 	}},
+	{name: "chat-send:private", effects: [][]int{{hlref.PrivSendChat}}, noReply: true, run: func(x *c05ctx) (*hlref.Tran, []bool) {
+		r := x.req.Request(hlref.TranChatSend, sfld(hlref.FData, "psst, privately"), fld(hlref.FChatID, x.chatID))
+		got := false
+		for _, t := range x.admin.TakeInbox() {
+			if id, _ := t.Get(hlref.FChatID); t.Type == hlref.TranChatMsg && string(id) == string(x.chatID) {
+				got = true
+			}
+		}
+		return r, []bool{got}
+	}},
+	{name: "chat-send:chat-id-0", effects: [][]int{{hlref.PrivSendChat}}, noReply: true, run: func(x *c05ctx) (*hlref.Tran, []bool) {
+		r := x.req.Request(hlref.TranChatSend, sfld(hlref.FData, "hi"), fld(hlref.FChatID, []byte{0, 0, 0, 0}))
+		return r, []bool{hasType(x.admin.TakeInbox(), hlref.TranChatMsg)}
+	}},
+	{name: "chat-send:emote", effects: [][]int{{hlref.PrivSendChat}}, noReply: true, run: func(x *c05ctx) (*hlref.Tran, []bool) {
+		r := x.req.Request(hlref.TranChatSend, sfld(hlref.FData, "waves"), fld(hlref.FChatOptions, hlref.BE16(1)))
+		return r, []bool{hasType(x.admin.TakeInbox(), hlref.TranChatMsg)}
+	}},
 	{name: "send-instant-msg", effects: [][]int{{hlref.PrivSendPrivMsg}}, run: func(x *c05ctx) (*hlref.Tran, []bool) {
 		r := x.req.Request(hlref.TranSendInstantMsg, fld(hlref.FUserID, hlref.BE16(x.adminID)), sfld(hlref.FData, "psst"), fld(hlref.FOptions, hlref.BE16(1)))
 		return r, []bool{hasType(x.admin.TakeInbox(), hlref.TranServerMsg)}
@@ -214,9 +232,20 @@ var c05cells = []c05cell{
 	replyCell("download-file:in-dropbox", []int{hlref.PrivDownloadFile}, hlref.TranDownloadFile, hlref.FRefNum, func(x *c05ctx) []hlref.Field {
 		return []hlref.Field{sfld(hlref.FFileName, "secret.txt"), fld(hlref.FFilePath, p1("Drop Box"))}
 	}),
+	replyCell("download-file:resume", []int{hlref.PrivDownloadFile}, hlref.TranDownloadFile, hlref.FRefNum, func(x *c05ctx) []hlref.Field {
+		return []hlref.Field{sfld(hlref.FFileName, "f.txt"), fld(hlref.FFileResumeData, hlref.ResumeData(3))}
+	}),
+	replyCell("download-file:preview", []int{hlref.PrivDownloadFile}, hlref.TranDownloadFile, hlref.FRefNum, func(x *c05ctx) []hlref.Field {
+		return []hlref.Field{sfld(hlref.FFileName, "f.txt"), fld(hlref.FFileTransferOptions, hlref.BE16(2))}
+	}),
+	replyCell("download-folder:nested", []int{hlref.PrivDownloadFolder}, hlref.TranDownloadFldr, hlref.FRefNum, func(x *c05ctx) []hlref.Field {
+		return []hlref.Field{sfld(hlref.FFileName, "deep"), fld(hlref.FFilePath, p1("dir"))}
+	}),
 	replyCell("download-folder", []int{hlref.PrivDownloadFolder}, hlref.TranDownloadFldr, hlref.FRefNum, func(x *c05ctx) []hlref.Field { return []hlref.Field{sfld(hlref.FFileName, "dir")} }),
 	uploadCell("upload-file:into-uploads", []int{hlref.PrivUploadFile}, p1("Uploads")),
 	uploadCell("upload-file:into-dropbox", []int{hlref.PrivUploadFile}, p1("Drop Box")),
+	uploadCell("upload-file:into-nested-uploads", []int{hlref.PrivUploadFile}, p1("dir", "Uploads")),
+	uploadCell("upload-file:under-uploads", []int{hlref.PrivUploadFile, hlref.PrivUploadAnywhere}, p1("Uploads", "sub")),
 	uploadCell("upload-file:elsewhere", []int{hlref.PrivUploadFile, hlref.PrivUploadAnywhere}, p1("other")),
 	uploadCell("upload-file:root", []int{hlref.PrivUploadFile, hlref.PrivUploadAnywhere}, nil),
 	uploadFolderCell("upload-folder:into-uploads", []int{hlref.PrivUploadFolder}, p1("Uploads")),
@@ -224,6 +253,7 @@ var c05cells = []c05cell{
 	uploadFolderCell("upload-folder:elsewhere", []int{hlref.PrivUploadFolder, hlref.PrivUploadAnywhere}, p1("other")),
 	uploadFolderCell("upload-folder:root", []int{hlref.PrivUploadFolder, hlref.PrivUploadAnywhere}, nil),
 	replyCell("list-files:dropbox", []int{hlref.PrivViewDropBoxes}, hlref.TranGetFileNameList, hlref.FFileNameWithInfo, func(x *c05ctx) []hlref.Field { return []hlref.Field{fld(hlref.FFilePath, p1("Drop Box"))} }),
+	replyCell("list-files:nested-dropbox", []int{hlref.PrivViewDropBoxes}, hlref.TranGetFileNameList, hlref.FFileNameWithInfo, func(x *c05ctx) []hlref.Field { return []hlref.Field{fld(hlref.FFilePath, p1("dir", "Drop Box"))} }),
 	replyCell("list-files:root", nil, hlref.TranGetFileNameList, hlref.FFileNameWithInfo, nil),
 	replyCell("list-files:folder", nil, hlref.TranGetFileNameList, hlref.FFileNameWithInfo, func(x *c05ctx) []hlref.Field { return []hlref.Field{fld(hlref.FFilePath, p1("dir"))} }),
 	replyCell("get-user-name-list", nil, hlref.TranGetUserNameList, hlref.FUsernameWithInfo, nil),
@@ -409,6 +439,11 @@ func c05run(rt *rapid.T, cell *c05cell, bits hlref.Access) bool {
 		_ = writeFile(w.FileRoot, "f.txt", []byte("file content"))
 		_ = writeFile(filepath.Join(w.FileRoot, "dir"), "inner.txt", []byte("inner"))
 		_ = writeFile(filepath.Join(w.FileRoot, "Drop Box"), "secret.txt", []byte("secret"))
+		for _, d := range []string{"dir/Drop Box", "dir/Uploads", "dir/deep", "Uploads/sub"} {
+			_ = os.MkdirAll(filepath.Join(w.FileRoot, d), 0o755)
+		}
+		_ = writeFile(filepath.Join(w.FileRoot, "dir", "Drop Box"), "hidden.txt", []byte("hidden"))
+		_ = writeFile(filepath.Join(w.FileRoot, "dir", "deep"), "d.txt", []byte("deep"))
 		x := &c05ctx{rt: rt, w: w, bits: bits}
 		x.admin = loginAs(rt, w, "10.0.0.1:1", "admin", "adminpw", "admin")
 		x.obs = loginAs(rt, w, "10.0.0.2:1", "obs", "obspw", "obs")
